@@ -354,7 +354,7 @@ pub fn c12_cases(rng: &mut Rng, tier: &str) -> (Vec<Case>, bool) {
         });
     }
     // exhaustive single-blank insertion / deletion / case flip for short lines
-    let short_lines = ["IF X THEN Y", "FORI=1TO10STEP2", "PRINT\"A B\";A B", "GO TO 10:REM x y", "A$=\"x\"+B$", "DATA 1, 2 :PRINT A", "X=1<=2<>3", "NEXTI:RETURN", "? 1 . 5", "ATOM=SCORE", "PRINT2E+3", "PRINT 2E-3", "X=1E5", "? 2 E + 3 E - 1", "PRINT1.5E+2E", "X=.5E+.5",
+    let short_lines = ["IF X THEN Y", "FORI=1TO10STEP2", "PRINT\"A B\";A B", "GO TO 10:REM x y", "A$=\"x\"+B$", "DATA 1, 2 :PRINT A", "X=1<=2<>3", "NEXTI:RETURN", "? 1 . 5", "ATOM=SCORE", "DATA 1,,2", "DATA \"A\",,B", "DATA ,,", "DATA a,,,b:X=1", "PRINT2E+3", "PRINT 2E-3", "X=1E5", "? 2 E + 3 E - 1", "PRINT1.5E+2E", "X=.5E+.5",
         // an identifier spelled exactly like text that occurs earlier on the line inside a literal / DATA item
         "?\"n\";:n=5:?N", "?\"Count\":Count=1", "DATA k:k=7", "a$=\"a\":a=1"];
     for line in short_lines {
@@ -385,6 +385,76 @@ pub fn c12_cases(rng: &mut Rng, tier: &str) -> (Vec<Case>, bool) {
             }
         }
         cases.push(Case { ops, checks, tag: "exhaustive-short-line".into(), nontrivial: true, show: format!("{:?} (all single edits)", line) });
+    }
+    // blanks and tabs at every item boundary of a DATA statement (after the keyword, on either side of every separating comma,
+    // before the closing colon) - with items left empty, leading and trailing commas, quoted items - change no item
+    for line in ["DATA 1,,2", "DATA \"A\",,B", "DATA ,,", "DATA a,,,b:X=1", "DATA ,1,", "DATA x,\"y,z\",,3:PRINT 1", "DATA 1,2,,\"\",4", "DATA", "DATA ,", "DATA a b,,c d", "DATA \"q\",", "DATA 1,, ,,2"] {
+        let bytes = line.as_bytes();
+        let end = {
+            // the statement ends at the first colon outside a quoted item
+            let (mut inq, mut at_start, mut e) = (false, true, bytes.len());
+            for (i, &c) in bytes.iter().enumerate().skip(4) {
+                match c {
+                    b'"' if inq => inq = false,
+                    b'"' if at_start => inq = true,
+                    b':' if !inq => {
+                        e = i;
+                        break;
+                    }
+                    b',' if !inq => at_start = true,
+                    b' ' | b'\t' => {}
+                    _ if !inq => at_start = false,
+                    _ => {}
+                }
+            }
+            e
+        };
+        let mut positions = vec![4usize, end];
+        let (mut inq, mut at_start) = (false, true);
+        for i in 4..end {
+            match bytes[i] {
+                b'"' if inq => {
+                    inq = false;
+                    positions.push(i + 1);
+                }
+                b'"' if at_start => {
+                    inq = true;
+                    at_start = false;
+                }
+                b',' if !inq => {
+                    positions.push(i);
+                    positions.push(i + 1);
+                    at_start = true;
+                }
+                b' ' | b'\t' => {}
+                _ if !inq => at_start = false,
+                _ => {}
+            }
+        }
+        positions.sort();
+        positions.dedup();
+        let mut ops = vec![tok_op(line)];
+        let mut checks = vec![];
+        for &p in &positions {
+            for b in [" ", "\t", "  \t "] {
+                ops.push(tok_op(&format!("{}{}{}", &line[..p], b, &line[p..])));
+                checks.push(format!("same-tokens 0 {}", ops.len() - 1));
+            }
+        }
+        // and at all boundaries at once
+        let mut all = String::new();
+        for (i, c) in line.char_indices() {
+            if positions.contains(&i) {
+                all.push(' ');
+            }
+            all.push(c);
+        }
+        if positions.contains(&line.len()) {
+            all.push(' ');
+        }
+        ops.push(tok_op(&all));
+        checks.push(format!("same-tokens 0 {}", ops.len() - 1));
+        cases.push(Case { ops, checks, tag: "data-item-boundaries".into(), nontrivial: true, show: format!("{:?} (a blank / tab at every item boundary)", line) });
     }
     // whole sessions: the same program typed in two spellings (case / blanks outside literals) prints the same; text inside
     // literals of EARLIER lines coincides with identifiers of later lines
